@@ -67,6 +67,8 @@ def replay(case):
     if scn.get('endpoint') == 'otherBindingOnly':
         other = (env.SP_ACS_REDIRECT, env.BINDING_REDIRECT) if scn['binding'] == 'post' else (env.SP_ACS_POST, env.BINDING_POST)
         kw['endpoints'] = {'assertion_consumer_service': [other]}
+    if scn.get('endpoint') == 'triples':
+        kw['endpoints'] = {'assertion_consumer_service': [(env.SP_ACS_POST, env.BINDING_POST, 1), (env.SP_ACS_REDIRECT, env.BINDING_REDIRECT, 2)]}
     sp = spc.sp_for(**kw)
     doc = build(scn)
     conv = {'entity_id': env.SP, 'remote_addr': '0.0.0.0', 'request_uri': '/acs'} if scn['conv'] else None
@@ -97,7 +99,7 @@ def main():
         keep = []
         for c in cases:
             s = c['scn']
-            core = (not s['enc'] and s['binding'] == 'post') or s['endpoint'] == 'otherBindingOnly' or s['conf2'] != 'absent' or s['sameFrom'] or s['mtype'] == 'attribute'
+            core = (not s['enc'] and s['binding'] == 'post') or s['endpoint'] != 'configured' or s['conf2'] != 'absent' or s['sameFrom'] or s['mtype'] == 'attribute'
             decided = c['mustAccept'] or c['mustReject']
             if (core and decided and chk.rng.random() < 0.5) or chk.rng.random() < 0.06:
                 keep.append(c)
